@@ -15,11 +15,12 @@
 (***************************************************************************)
 EXTENDS Integers, Sequences, FiniteSets, TLC, Json, IOUtils
 CONSTANT DIAG
-VARIABLES l, comms, par, q, ackSelf, ackKids, job, inSearch, search, bestCnt, nGo, nBest, nDone, mainJob, quitting
+VARIABLES l, comms, par, q, ackSelf, ackKids, job, inSearch, search, bestCnt, nGo, nBest, nDone, mainJob, quitting, sess
+\* sess = [inDo, ready, outs]: E inside doSearch, isready awaiting readyok, bestmove lines printed (C05 session contract)
 Tr == ndJsonDeserialize(IOEnv.TRACE)
 Chk(name, cond, info) == IF cond THEN TRUE ELSE (DIAG /\ PrintT(<<"MISMATCH", name, l, info>>))
 Ev(e) == l <= Len(Tr) /\ Tr[l].e = e /\ l' = l + 1
-vars == <<comms, par, q, ackSelf, ackKids, job, inSearch, search, bestCnt, nGo, nBest, nDone, mainJob, quitting>>
+vars == <<comms, par, q, ackSelf, ackKids, job, inSearch, search, bestCnt, nGo, nBest, nDone, mainJob, quitting, sess>>
 Un(S) == UNCHANGED S
 
 ASSIGN == 0  INIT == 1  START == 2  STOP == 3  SETPARAM == 4  QUIT == 5  RESULT == 6  STOPACK == 7  QUITACK == 8
@@ -39,7 +40,7 @@ TReg ==
       /\ par' = Put(par, o, IF Tr[l].e = "RegEngine" THEN -1 ELSE Tr[l].b)
       /\ q' = Put(q, o, <<>>) /\ ackSelf' = Put(ackSelf, o, FALSE) /\ ackKids' = Put(ackKids, o, 0)
       /\ job' = Put(job, o, -1) /\ inSearch' = Put(inSearch, o, FALSE)
-   /\ Un(<<search, bestCnt, nGo, nBest, nDone, mainJob, quitting>>)
+   /\ Un(<<search, bestCnt, nGo, nBest, nDone, mainJob, quitting, sess>>)
 
 Drop(f, k) == [x \in DOMAIN f \ {k} |-> f[x]]
 TUnreg ==
@@ -50,14 +51,14 @@ TUnreg ==
            /\ comms' = comms \ {o} /\ par' = Drop(par, o) /\ q' = Drop(q, o) /\ ackSelf' = Drop(ackSelf, o)
            /\ ackKids' = Drop(ackKids, o) /\ job' = Drop(job, o) /\ inSearch' = Drop(inSearch, o)
       ELSE Un(<<comms, par, q, ackSelf, ackKids, job, inSearch>>)
-   /\ Un(<<search, bestCnt, nGo, nBest, nDone, mainJob, quitting>>)
+   /\ Un(<<search, bestCnt, nGo, nBest, nDone, mainJob, quitting, sess>>)
 
 TSend ==
    /\ Ev("Send")
    /\ LET o == Tr[l].o  c == <<Tr[l].a, Tr[l].b>> IN
       /\ Chk("Design:SendToKnownMailbox", o \in comms, o)
       /\ q' = IF o \in comms THEN [q EXCEPT ![o] = Append(IF c[1] \in {START, STOP} THEN Purge(@) ELSE @, c)] ELSE q
-   /\ Un(<<comms, par, ackSelf, ackKids, job, inSearch, search, bestCnt, nGo, nBest, nDone, mainJob, quitting>>)
+   /\ Un(<<comms, par, ackSelf, ackKids, job, inSearch, search, bestCnt, nGo, nBest, nDone, mainJob, quitting, sess>>)
 
 TRecv ==
    /\ Ev("Recv")
@@ -65,7 +66,7 @@ TRecv ==
           ok == o \in comms /\ q[o] # <<>> /\ Head(q[o]) = c
       IN /\ Chk("Design:MailboxFifo", ok, <<o, c, IF o \in comms THEN q[o] ELSE <<>> >>)
          /\ q' = IF ok THEN [q EXCEPT ![o] = Tail(@)] ELSE q
-   /\ Un(<<comms, par, ackSelf, ackKids, job, inSearch, search, bestCnt, nGo, nBest, nDone, mainJob, quitting>>)
+   /\ Un(<<comms, par, ackSelf, ackKids, job, inSearch, search, bestCnt, nGo, nBest, nDone, mainJob, quitting, sess>>)
 
 TStopSent ==
    /\ Ev("StopSent")
@@ -73,7 +74,7 @@ TStopSent ==
       /\ ackSelf' = [ackSelf EXCEPT ![o] = TRUE]
       /\ ackKids' = [ackKids EXCEPT ![o] = Tr[l].a]
       /\ Chk("Design:KidCount", Tr[l].a = Cardinality({ c \in comms : par[c] = o }), <<o, Tr[l].a>>)
-   /\ Un(<<comms, par, q, job, inSearch, search, bestCnt, nGo, nBest, nDone, mainJob, quitting>>)
+   /\ Un(<<comms, par, q, job, inSearch, search, bestCnt, nGo, nBest, nDone, mainJob, quitting, sess>>)
 
 TStopAckCall ==
    /\ Ev("StopAckCall")
@@ -84,52 +85,79 @@ TStopAckCall ==
               /\ Chk("AckCountersNonNegative", ackKids[o] - 1 >= 0, <<o, ackKids[o] - 1>>)
               /\ Un(ackSelf)
          ELSE /\ ackSelf' = [ackSelf EXCEPT ![o] = FALSE] /\ Un(ackKids)
-   /\ Un(<<comms, par, q, job, inSearch, search, bestCnt, nGo, nBest, nDone, mainJob, quitting>>)
+   /\ Un(<<comms, par, q, job, inSearch, search, bestCnt, nGo, nBest, nDone, mainJob, quitting, sess>>)
 
 TWJob == /\ Ev("WJob") /\ job' = [job EXCEPT ![Tr[l].o] = Tr[l].a]
-         /\ Un(<<comms, par, q, ackSelf, ackKids, inSearch, search, bestCnt, nGo, nBest, nDone, mainJob, quitting>>)
+         /\ Un(<<comms, par, q, ackSelf, ackKids, inSearch, search, bestCnt, nGo, nBest, nDone, mainJob, quitting, sess>>)
 TWSearch ==
    /\ (Ev("WSearchBegin") \/ Ev("WSearchEnd"))
    /\ inSearch' = [inSearch EXCEPT ![Tr[l].o] = (Tr[l].e = "WSearchBegin")]
    /\ Chk("HelperSearchesOnlyDuringASearch", Tr[l].e = "WSearchBegin" => search, Tr[l].o)
-   /\ Un(<<comms, par, q, ackSelf, ackKids, job, search, bestCnt, nGo, nBest, nDone, mainJob, quitting>>)
+   /\ Un(<<comms, par, q, ackSelf, ackKids, job, search, bestCnt, nGo, nBest, nDone, mainJob, quitting, sess>>)
 
 TGo == /\ Ev("Go")
        /\ Chk("NoSearchOverlap", ~search, nGo)
        /\ Chk("QuiescentAtStart", Quiescent, <<job, ackKids, ackSelf>>)
        /\ search' = TRUE /\ bestCnt' = 0 /\ nGo' = nGo + 1 /\ mainJob' = 0
-       /\ Un(<<comms, par, q, ackSelf, ackKids, job, inSearch, nBest, nDone, quitting>>)
+       /\ Un(<<comms, par, q, ackSelf, ackKids, job, inSearch, nBest, nDone, quitting, sess>>)
 TBest == /\ Ev("Best")
          /\ Chk("ExactlyOneBest", search /\ bestCnt = 0, <<nGo, bestCnt>>)
          /\ Chk("BestOnlyWhenReleased", Tr[l].a = 0 /\ Tr[l].b = 0, <<"ponder", Tr[l].a, "infinite", Tr[l].b>>)
          /\ bestCnt' = bestCnt + 1 /\ nBest' = nBest + 1
-         /\ Un(<<comms, par, q, ackSelf, ackKids, job, inSearch, search, nGo, nDone, mainJob, quitting>>)
+         /\ Un(<<comms, par, q, ackSelf, ackKids, job, inSearch, search, nGo, nDone, mainJob, quitting, sess>>)
 TDone == /\ Ev("Done")
          /\ Chk("ExactlyOneBest", search /\ bestCnt = 1, <<nGo, bestCnt>>)
          /\ Chk("QuiescentAtDone", Quiescent, <<"job", job, "inSearch", inSearch, "ackKids", ackKids, "ackSelf", ackSelf, "q", q>>)
          /\ search' = FALSE /\ nDone' = nDone + 1
-         /\ Un(<<comms, par, q, ackSelf, ackKids, job, inSearch, bestCnt, nGo, nBest, mainJob, quitting>>)
+         /\ Un(<<comms, par, q, ackSelf, ackKids, job, inSearch, bestCnt, nGo, nBest, mainJob, quitting, sess>>)
 TNewJob == /\ Ev("NewJob") /\ mainJob' = Tr[l].a
            /\ Chk("JobIdsIncrease", Tr[l].a = mainJob + 1, <<mainJob, Tr[l].a>>)
-           /\ Un(<<comms, par, q, ackSelf, ackKids, job, inSearch, search, bestCnt, nGo, nBest, nDone, quitting>>)
+           /\ Un(<<comms, par, q, ackSelf, ackKids, job, inSearch, search, bestCnt, nGo, nBest, nDone, quitting, sess>>)
 TResultSeen == /\ Ev("ResultSeen")
                /\ Chk("ResultOnlyForCurrentJob", Tr[l].a <= mainJob /\ Tr[l].b = mainJob, <<Tr[l].a, Tr[l].b, mainJob>>)
                /\ Un(vars)
-TQuit == Ev("Quit") /\ quitting' = TRUE /\ Un(<<comms, par, q, ackSelf, ackKids, job, inSearch, search, bestCnt, nGo, nBest, nDone, mainJob>>)
-TOther == /\ \E e \in {"Notify", "WaitRet", "QuitSent", "QuitAckCall", "OptPending", "OptsSwap", "PonderHit", "StopReq", "Limits", "Cmd", "Meta"} : Ev(e)
+TQuit == Ev("Quit") /\ quitting' = TRUE /\ Un(<<comms, par, q, ackSelf, ackKids, job, inSearch, search, bestCnt, nGo, nBest, nDone, mainJob, sess>>)
+TOther == /\ \E e \in {"Notify", "WaitRet", "QuitSent", "QuitAckCall", "OptPending", "OptsSwap", "PonderHit", "StopReq", "Limits", "Meta"} : Ev(e)
           /\ Un(vars)
+(* ---- C05 session contract on the same traces ---- *)
+TCmd == /\ Ev("Cmd")
+        /\ Chk("ReadyokBeforeNextCommand", sess.ready = 0, Tr[l].txt)
+        /\ sess' = IF Tr[l].cmd0 = "isready" THEN [sess EXCEPT !.ready = 1] ELSE sess
+        /\ Un(<<comms, par, q, ackSelf, ackKids, job, inSearch, search, bestCnt, nGo, nBest, nDone, mainJob, quitting>>)
+TReadyOk == /\ Ev("ReadyOk")
+            /\ Chk("ReadyokOnlyForIsready", sess.ready = 1, sess)
+            /\ sess' = [sess EXCEPT !.ready = 0]
+            /\ Un(<<comms, par, q, ackSelf, ackKids, job, inSearch, search, bestCnt, nGo, nBest, nDone, mainJob, quitting>>)
+TInfo == /\ Ev("Info")
+         /\ Chk("NoSearchOutputOutsideASearch", search /\ sess.inDo /\ bestCnt = 0, <<"search", search, "best", bestCnt>>)
+         /\ Un(vars)
+TBestOut == /\ Ev("BestOut")
+            /\ Chk("BestmoveLineOncePerSearch", search /\ bestCnt = 1 /\ sess.outs = nBest - 1, <<bestCnt, sess.outs, nBest>>)
+            /\ sess' = [sess EXCEPT !.outs = @ + 1]
+            /\ Un(<<comms, par, q, ackSelf, ackKids, job, inSearch, search, bestCnt, nGo, nBest, nDone, mainJob, quitting>>)
+TDoSearch == /\ (Ev("SearchBegin") \/ Ev("SearchEnd"))
+             /\ Chk("SearchRunsOnlyWhenPublished", search, Tr[l].e)
+             /\ sess' = [sess EXCEPT !.inDo = (Tr[l].e = "SearchBegin")]
+             /\ Un(<<comms, par, q, ackSelf, ackKids, job, inSearch, search, bestCnt, nGo, nBest, nDone, mainJob, quitting>>)
+TParamSet == /\ Ev("ParamSet")
+             /\ Chk("OptionsAppliedOnlyBetweenSearches", ~sess.inDo, Tr[l].a)
+             /\ Un(vars)
+
 \* end-of-run record written by the driver: every go got its bestmove and the engine went idle again
 TEnd == /\ Ev("End")
-        /\ Chk("EverySearchAnswered", nGo = nBest /\ nGo = nDone /\ ~search, <<nGo, nBest, nDone>>)
+        /\ Chk("EverySearchAnswered", nGo = nBest /\ nGo = nDone /\ ~search /\ sess.outs = nBest, <<nGo, nBest, nDone, sess.outs>>)
+        /\ Chk("EveryIsreadyAnswered", sess.ready = 0, sess)
         /\ Un(vars)
 
 \* several executions are concatenated in one file: Reset re-initialises the reconstructed state
 TReset == /\ Ev("Reset") /\ comms' = {} /\ par' = <<>> /\ q' = <<>> /\ ackSelf' = <<>> /\ ackKids' = <<>> /\ job' = <<>> /\ inSearch' = <<>>
           /\ search' = FALSE /\ bestCnt' = 0 /\ nGo' = 0 /\ nBest' = 0 /\ nDone' = 0 /\ mainJob' = 0 /\ quitting' = FALSE
+          /\ sess' = [inDo |-> FALSE, ready |-> 0, outs |-> 0]
 
 TInit == /\ l = 1 /\ comms = {} /\ par = <<>> /\ q = <<>> /\ ackSelf = <<>> /\ ackKids = <<>> /\ job = <<>> /\ inSearch = <<>>
          /\ search = FALSE /\ bestCnt = 0 /\ nGo = 0 /\ nBest = 0 /\ nDone = 0 /\ mainJob = 0 /\ quitting = FALSE
+         /\ sess = [inDo |-> FALSE, ready |-> 0, outs |-> 0]
 TNext == TReg \/ TSend \/ TRecv \/ TStopSent \/ TStopAckCall \/ TWJob \/ TWSearch \/ TGo \/ TBest \/ TDone \/ TNewJob \/ TResultSeen
-         \/ TQuit \/ TOther \/ TEnd \/ TReset \/ TUnreg
+         \/ TQuit \/ TOther \/ TEnd \/ TReset \/ TUnreg \/ TCmd \/ TReadyOk \/ TInfo \/ TBestOut \/ TDoSearch \/ TParamSet
 Accepted == TLCGet("stats").diameter - 1 = Len(Tr) \/ (PrintT(<<"REJECTED_AT", TLCGet("stats").diameter>>) /\ FALSE)
 =============================================================================
